@@ -374,7 +374,7 @@ func execC05a(ctx *Ctx, in *Input) *Result {
 func init() {
 	Register(&Checker{
 		ID: "C14", Level: "exploration", Engine: "A",
-		Rule: "case = (grammar text, 5 output variants, K map-order schedules incl. canonical, reverse, per-site shuffles and rotations); grammars: the repository's examples/*.y, varied textbook grammars, operator tables, token-declaration mixes, random CFGs with precedence. All outputs of one (grammar, variant) must be byte-identical; plus same-process regeneration and N runs of the uninstrumented CLI in separate processes. distinct_nontrivial = distinct grammar texts for which at least one output file was produced and compared.",
+		Rule:     "case = (grammar text, 5 output variants, K map-order schedules incl. canonical, reverse, per-site shuffles and rotations); grammars: the repository's examples/*.y, varied textbook grammars, operator tables, token-declaration mixes, random CFGs with precedence. All outputs of one (grammar, variant) must be byte-identical; plus same-process regeneration and N runs of the uninstrumented CLI in separate processes. distinct_nontrivial = distinct grammar texts for which at least one output file was produced and compared.",
 		NumCases: func(ctx *Ctx) int { return fixedCases(ctx, 150, 3000) },
 		Gen:      genC14, Exec: execC14,
 		Probes: []string{"real_cli_runs"},
@@ -386,13 +386,22 @@ func init() {
 	execB := execParsers("C05")
 	Register(&Checker{
 		ID: "C05", Level: "exploration", Engine: "A+B",
-		Rule: "two kinds of cases. (a) (grammar, layout, K map-order schedules): for every run whose table yaccgo packs, the documented lookup (offset+symbol, bounds, check vector, default action / default goto) is evaluated for ALL (state, symbol) cells incl. column 0 (unknown tokens) and compared with the dense table of the same run. (b) batches of grammars compiled in the four Go variants: the full matrix is read through each variant's GENERATED Action() and compared with the dense table of the same run, and packed and -u parsers must give the same verdict, reductions, tokens requested and value on every input of the C01 input set. distinct_nontrivial = distinct packings (hash of the five packed vectors) + distinct grammars compiled.",
+		Rule:     "two kinds of cases. (a) (grammar, layout, K map-order schedules): for every run whose table yaccgo packs, the documented lookup (offset+symbol, bounds, check vector, default action / default goto) is evaluated for ALL (state, symbol) cells incl. column 0 (unknown tokens) and compared with the dense table of the same run. (b) batches of grammars compiled in the four Go variants: the full matrix is read through each variant's GENERATED Action() and compared with the dense table of the same run, and packed and -u parsers must give the same verdict, reductions, tokens requested and value on every input of the C01 input set. distinct_nontrivial = distinct packings (hash of the five packed vectors) + distinct grammars compiled.",
 		NumCases: func(ctx *Ctx) int { return c05batches(ctx) + autoCases(ctx, 5000, 40000) },
 		Gen: func(ctx *Ctx, i int) *Input {
 			if isB, k := mixCases(c05batches(ctx), autoCases(ctx, 5000, 40000), i); isB {
 				in := genB(ctx, k)
 				in.Index = i
 				in.Variants = wl.GoVariants
+				if k == 1 && ctx.Thorough() {
+					// scale (thorough only: generation alone takes several seconds): about 1000 states, packed vectors of
+					// well over 10 000 entries, each printed as one line of more than 64 KiB
+					s := wl.BlockCommands(125)
+					wl.DecorateInt(s, rng.New(ctx.Seed, "C05", "blockcommands"))
+					in.Specs = []*wl.Spec{s}
+					in.Variants = []wl.Variant{{Lang: "go"}, {Lang: "go", Unpack: true}}
+					in.LayoutSeed = 0
+				}
 				return in
 			} else {
 				in := genA(ctx, k)
